@@ -184,6 +184,20 @@ theorem next_position_agrees_C (ts : Int → ℝ) (jt ja jd : Int → Int) (qpos
     · have h23 : jt j = 2 ∨ jt j = 3 := by omega
       simp only [kernelCells, integratePosJoint, FREE, BALL, SLIDE, HINGE, h0, h1, h23, if_false, if_true, mul_one]
 
+/-- (2d) **next_position_scale** (ℝ): launching `_next_position` with `qvel_scale = s` (as `_rk_perturb_state`
+    does with `s = A_i`) is launching it with scale 1 on the velocity `s·qvel` — the form `intPos q (a·v) h`
+    of `RkHyps.hpos`, i.e. C's `mj_integratePos(X0.qpos, dX = A_i F.vel, h)`. -/
+theorem next_position_scale (jt a d : Int) (qpos qvel : Int → ℝ) (s dt : ℝ) :
+    kernelCells jt a d qpos qvel s dt = kernelCells jt a d qpos (fun i => s * qvel i) 1 dt := by
+  unfold kernelCells
+  have e : ∀ x : ℝ, s * x * 1 = x * s := fun x => by ring
+  simp only [e]
+  split
+  · rfl
+  · split
+    · rfl
+    · congr 1; ring
+
 /-! ## 3. `_next_time` -/
 
 /-- (3) **next_time_spec** (time part, every `K`): the first write of a `_next_time` task `w` is
@@ -479,6 +493,27 @@ theorem euler_damp_system (ts : Int → ℝ) (rownnz rowadr : Int → Int) (damp
   refine ⟨compute_damping_deriv_spec .., ?_, ?_⟩
   · rw [euler_damp_qfrc_spec]; simp [hadd, hmul, diag]
   · intro h0 h1; simp [D, h0, h1]
+
+/-- (5') **euler_step_eq**: `euler(m, d)` = `_advance(m, d, qacc)` is `mj_advance` (semi-implicit: the
+    positions are integrated with the NEW velocity), `qacc` being `d.qacc` or the solution of the damped
+    system above; the warmstart is `d.qacc` in both. -/
+theorem euler_step_eq (P : Prims ℝ) (H : HostPrims ℝ) (dt : ℝ) (d : HostData ℝ) (qacc : Int → ℝ)
+    (hpos1 : ∀ q v h, H.kPos q v (Scalar.lit 1 0) h = P.intPos q v h)
+    (hvel1 : ∀ v acc h i, H.kVel v acc (Scalar.lit 1 0) h i = v i + h * acc i)
+    (hactL : ∀ act ad h, H.kAct act ad (Scalar.lit 1 0) true h = P.nextAct true act ad h) :
+    hostEuler H dt d qacc = advance P dt ⟨d.qpos, d.qvel, d.act, d.time⟩ d.act_dot qacc none d.qacc := by
+  unfold hostEuler hostAdvance advance
+  simp only [hpos1, hactL, Option.getD_none, eulerVel]
+  have hv : H.kVel d.qvel qacc (Scalar.lit 1 0) dt = fun i => d.qvel i + dt * qacc i := by
+    funext i; rw [hvel1]
+  rw [hv]
+
+/-! ### `implicit` / `implicitfast`
+
+  `implicit(m, d)` computes `qacc` by `factor_solve_lu` of `M − dt·(∂qfrc_smooth/∂qvel + RNE terms)` (IMPLICIT) or by
+  `factor_solve_i` of `M − dt·∂qfrc_smooth/∂qvel` (IMPLICITFAST) with right-hand side `d.efc.Ma`, then calls
+  `_advance(m, d, qacc)`: the state update is `Spec.Integrate.hostEuler` with that `qacc`, i.e. theorems (1)–(3)
+  and `next_activation_spec` apply unchanged.  The derivative kernels (`derivative.py`) are outside this file. -/
 
 /-! ## 6. `_advance`: launch order -/
 
